@@ -32,7 +32,8 @@ _UIDS = ("1.2.840.10008.1.1", "1.2.840.10008.5.1.4.1.1.2", "1.2.826.0.1.3680043.
 _US = (0, 1, 0xFFFF)
 _AES = ("A", "DEST", "SIXTEEN_CHARS_AE")
 _LOS = ("x", "no such object", "E" * 64)
-_ATS = ((0x00100010,), (0x00100010, 0x7FE00010), ())         # one tag, two tags, empty list
+# one tag, two tags, empty list, two tags of group 0000 (each <= 0xFFFF as an int); entry 3 is used with sel == 3
+_ATS = ((0x00100010,), (0x00100010, 0x7FE00010), (), (0x00000900, 0x00000902))
 
 # keyword -> pool of three legal values (index = the solver-enumerated selector)
 POOLS = {
@@ -93,14 +94,46 @@ def _sel(pool, sel):
     out_of_bounds()
 
 
-def _roundtrip(msg, present, sel, with_ds):
-    """`present[i]`: is parameter i of _params(msg) given; `sel`: which pool value; with_ds: give the data set"""
+class _RecDul:
+    def __init__(self):
+        self.sent = []
+
+    def send_pdu(self, p):
+        self.sent.append(p)
+
+
+class _Side:
+    maximum_length = MAX_PDU
+
+
+class _SendAssoc:
+    """what DIMSEServiceProvider.send_msg needs of an association: the peer's maximum length, a DUL, no handlers"""
+    is_requestor = True
+    acceptor = _Side()
+    requestor = _Side()
+
+    def __init__(self):
+        self.dul = _RecDul()
+
+    def get_handlers(self, event):
+        return []
+
+    def _abort_blocking(self):
+        return None
+
+    abort = _abort_blocking
+
+
+def _roundtrip(msg, present, sel, with_ds, via_send_msg=False):
+    """`present[i]`: is parameter i of _params(msg) given; `sel`: which pool value; with_ds: give the data set;
+    via_send_msg: let the real DIMSEServiceProvider.send_msg choose the message class (request / response direction)"""
     params = _params(msg)
     prim = SERVICE_CLASS[msg.service]()
     expect = {}
     for i, kw in enumerate(params):
         if present[i]:
-            v = _sel(POOLS[kw], sel)
+            pool = POOLS[kw]
+            v = _sel(pool, sel if (sel < 3 or len(pool) > 3) else 2)
             v = list(v) if isinstance(v, tuple) else v
             setattr(prim, kw, v)
             expect[kw] = _norm(kw, v)
@@ -115,9 +148,17 @@ def _roundtrip(msg, present, sel, with_ds):
 
     # ---- there
     cls = getattr(dm, msg.name.replace("-", "_"))
-    m = cls()
-    m.primitive_to_message(prim)
-    pdatas = list(m.encode_msg(CID, MAX_PDU))
+    if via_send_msg:
+        from pynetdicom.dimse import DIMSEServiceProvider
+        with untraced():
+            sa = _SendAssoc()
+            provider = DIMSEServiceProvider(sa)
+        provider.send_msg(prim, CID)
+        pdatas = sa.dul.sent
+    else:
+        m = cls()
+        m.primitive_to_message(prim)
+        pdatas = list(m.encode_msg(CID, MAX_PDU))
 
     # ---- the command set on the wire, read by the independent parser
     cmd = b""
@@ -221,13 +262,15 @@ def roundtrip_flip(which: int, all_present: bool, flip: int, sel: int) -> bool:
     """
     pre: 0 <= which < N_GROUP
     pre: -1 <= flip < N_PARAMS_MAX
-    pre: 0 <= sel <= 2
+    pre: 0 <= sel <= 3
     post: _ == True
     """
     msg = spec.BY_NAME[_pick(_GROUP, which)]
     n = len(_params(msg))
     if flip >= n:
         out_of_bounds()
+    if sel == 3 and "AttributeIdentifierList" not in _params(msg) and "OffendingElement" not in _params(msg):
+        out_of_bounds()        # entry 3 only exists for the tag-list parameters
     present = []
     for i in range(n):
         f = (flip == i)
@@ -235,9 +278,34 @@ def roundtrip_flip(which: int, all_present: bool, flip: int, sel: int) -> bool:
     return _roundtrip(msg, present, sel, sel != 0)
 
 
+@harness(
+    "C17",
+    shards=_shards,
+    timeout=(240, 900),
+    functions=["dimse:DIMSEServiceProvider.send_msg"] + _FUNCS,
+    bounds="all 23 messages with every field present, values from pool entry sel in {0,1,2} (so Message ID / Message ID "
+           "Being Responded To in {0, 1, 0xFFFF}), sent through the real DIMSEServiceProvider.send_msg, which chooses the "
+           "request / response message class: the command set on the wire is the message's own (PS3.7 command field) "
+           "and the round trip preserves type and direction",
+    stubs=_STUBS + ["assoc stand-in for send_msg: peer maximum length 70, recording DUL, no event handlers"],
+    outside=_OUTSIDE,
+)
+def direction_via_send_msg(which: int, sel: int) -> bool:
+    """
+    pre: 0 <= which < N_GROUP
+    pre: 0 <= sel <= 2
+    post: _ == True
+    """
+    msg = spec.BY_NAME[_pick(_GROUP, which)]
+    present = [True for _ in _params(msg)]
+    return _roundtrip(msg, present, sel, sel != 0, via_send_msg=True)
+
+
 def _subset_shards():
     # one process per message and pool entry: the largest (C-GET-RSP / C-MOVE-RSP, 2^9 subsets) then costs ~10 CPU-min
-    return [{"msgs": [m.name], "sel": s} for m in spec.MESSAGES for s in (0, 1, 2)]
+    return ([{"msgs": [m.name], "sel": s} for m in spec.MESSAGES for s in (0, 1, 2)]
+            + [{"msgs": [m.name], "sel": 3} for m in spec.MESSAGES
+               if "AttributeIdentifierList" in _params(m) or "OffendingElement" in _params(m)])
 
 
 SEL_FIXED = shard("sel", 1)
